@@ -30,6 +30,8 @@ type Harness struct {
 	// Signature maps a violation to the stable signature used for known-finding matching
 	// (default: the oracle id).
 	Signature func(v *simrt.Violation) string
+	// NonTrivial overrides the default rule (a context switch or an injected fault happened).
+	NonTrivial func(res *simrt.Result) bool
 	// Describe renders a sample of what a run looked like (for evidence), optional.
 	Describe func(res *simrt.Result) string
 }
@@ -150,7 +152,7 @@ func (h *Harness) shrink(t *testing.T, tape []simrt.TapeEntry, tier, sig string,
 				nz++
 			}
 		}
-		return nz*10000 + len(c)
+		return nz*3 + len(c)*2 // fewer decisions and simpler (zero) decisions are both better
 	}
 	best := tape
 	for pass := 0; pass < 4; pass++ {
@@ -285,13 +287,22 @@ func Main(t *testing.T, h Harness) {
 		for k, v := range res.Probes {
 			wo.Probes[k] += v
 		}
-		if res.Switches > 0 || nf > 0 {
+		nontrivial := res.Switches > 0 || nf > 0
+		if h.NonTrivial != nil {
+			nontrivial = h.NonTrivial(&res)
+		}
+		if nontrivial {
 			wo.Nontrivial++
 			if len(hashes) < 4_000_000 {
-				hashes[res.TraceHash] = struct{}{}
+				// a case is identified by its event trace and by every decision drawn for it
+				hh := res.TraceHash
+				for _, e := range res.Tape {
+					hh = (hh ^ uint64(e.V)*0x9e3779b97f4a7c15 ^ uint64(e.N)) * 1099511628211
+				}
+				hashes[hh] = struct{}{}
 			}
 		}
-		if len(wo.Samples) < 2 && h.Describe != nil && (res.Switches > 0 || nf > 0) {
+		if len(wo.Samples) < 2 && h.Describe != nil && nontrivial {
 			wo.Samples = append(wo.Samples, fmt.Sprintf("run %d (seed %d): %s", i, rs, h.Describe(&res)))
 		}
 		if res.Violation != nil {
